@@ -56,6 +56,13 @@ func c08Case(c *core.Ctx, idx int) {
 	base := gen.Render(toks, gen.LayCanon, r, nil)
 	pr := obs.Parse(base, pc.ver, true)
 	if pr.Panic != nil || len(pr.Errors) > 0 || pr.Root == nil {
+		// whether the program is a valid one is C03's business — unless another layout of the same tokens IS accepted
+		min := gen.Render(toks, gen.LayMinimal, r.Split("min"), nil)
+		if pm := obs.Parse(min, pc.ver, true); pm.Panic == nil && len(pm.Errors) == 0 && pm.Root != nil && len(pr.Errors) > 0 {
+			e := pr.Errors[0]
+			c.Violation(fmt.Sprintf("layout|fam%d|canon-rejected-minimal-accepted|error:%s", fam, numStrip(e.Msg)), fmt.Sprintf("the canonical layout (one blank between tokens) is rejected under %s (%s) while the minimal layout of the same tokens parses cleanly", pc.ver, e.String()), core.W(base, pc.ver).With("minimal_layout", string(min)))
+			return
+		}
 		c.Inconclusive("canonical layout not accepted (C03's business)")
 		return
 	}
